@@ -1,0 +1,52 @@
+//! Plaintext transmit log (C20): when enabled, one canonical line per packet built — space, packet number
+//! and the frames in the order they were written, before packet protection. Contents that come from TLS
+//! (CRYPTO data, NEW_TOKEN tokens) are reduced to their lengths: they are not produced by quinn-proto.
+use bytes::Bytes;
+
+use super::super::Connection;
+use crate::frame::{self, Frame};
+use crate::packet::SpaceId;
+
+#[derive(Default, Debug)]
+pub struct TxLog {
+    on: bool,
+    lines: Vec<String>,
+}
+
+impl Connection {
+    /// Start recording (off by default: no cost for the other checks)
+    pub fn verif_txlog_enable(&mut self) {
+        self.verif_txlog.on = true;
+    }
+
+    /// Lines recorded since the last call
+    pub fn verif_take_txlog(&mut self) -> Vec<String> {
+        std::mem::take(&mut self.verif_txlog.lines)
+    }
+
+    pub(in crate::connection) fn verif_record_tx_plain(&mut self, space: SpaceId, pn: u64, payload: &[u8]) {
+        if !self.verif_txlog.on {
+            return;
+        }
+        let mut line = format!("{} {}:", space as u8, pn);
+        let mut padding = 0usize;
+        match frame::Iter::new(Bytes::copy_from_slice(payload)) {
+            Err(_) => line.push_str(" <empty>"),
+            Ok(iter) => {
+                for f in iter {
+                    match f {
+                        Ok(Frame::Padding) => padding += 1,
+                        Ok(Frame::Crypto(c)) => line.push_str(&format!(" CRYPTO({},{})", c.offset, c.data.len())),
+                        Ok(Frame::NewToken(t)) => line.push_str(&format!(" NEW_TOKEN({})", t.token.len())),
+                        Ok(f) => line.push_str(&format!(" {f:?}")),
+                        Err(_) => line.push_str(" <undecodable>"),
+                    }
+                }
+            }
+        }
+        if padding > 0 {
+            line.push_str(&format!(" PADDING*{padding}"));
+        }
+        self.verif_txlog.lines.push(line);
+    }
+}
